@@ -227,6 +227,8 @@ class Ctx:
             return self.rat(n.args[0])
         if op == 'call':
             return self.call(n)
+        if op == 'absi':
+            return self.absatom(n.args[0])
         if op == 'ite':
             a = abs_idiom(n)
             if a is not None:
@@ -287,12 +289,17 @@ class Ctx:
 
     def absatom(self, x):
         """|x| with |x|^2 -> x^2"""
+        xr0 = self.rat(x)
+        if not xr0[0]:
+            return ({}, pconst(1))
+        if len(xr0[0]) == 1 and () in xr0[0] and len(xr0[1]) == 1 and () in xr0[1]:
+            return (pconst(abs(xr0[0][()] / xr0[1][()])), pconst(1))
         node = T.call('fabs', [x], x.ty)
         k = self.key(node)
         if k not in self.rules:
             xr = self.rat(x)
             if xr[1] == pconst(1):
-                self.rules[k] = xr[0]
+                self.rules[k] = ppow(xr[0], 2)
         return (patom(k), pconst(1))
 
     def call(self, n):
@@ -327,6 +334,7 @@ def _rat_sqrt(c):
 
 def abs_idiom(n):
     """ite(0 <= x, x, -x), ite(0 < x, x, -x), ite(x < 0, -x, x), ite(x <= 0, -x, x) -> x"""
+    if n.op == 'absi': return n.args[0]
     if n.op != 'ite': return None
     c, a, b = n.args
     if c.op != 'fcmp' or c.attr not in ('olt', 'ole'): return None
